@@ -65,8 +65,8 @@ impl<'a> G<'a> {
     fn tp(&mut self) { if self.open_parens > 0 { self.trunc_points.push((self.out.len(), self.open_parens, self.open_calls, self.open_text)); } }
     fn anchor(&mut self) -> usize { self.anchors.push(self.out.len()); self.anchors.len() - 1 }
     // insignificant whitespace/comments (hidden)
-    fn ows(&mut self) { match self.u.below(9) { 0 | 1 | 2 | 3 => {} 4 => self.mark(" ", MK::HiddenWs), 5 => self.mark("\n", MK::HiddenWs), 6 => self.mark("  \t", MK::HiddenWs), 7 => { self.uws(); } _ => { if self.u.coin(1, 4) { self.mark("/*a*//*b,(*/", MK::HiddenWs); } else if self.u.coin(1, 4) { self.mark("/*a*/ /*b*/\n", MK::HiddenWs); } else { self.mark("/*c,=;)*/", MK::HiddenWs); } self.feat("comment-in-gap"); } } }
-    fn rws(&mut self) { match self.u.below(9) { 0 | 1 | 2 | 3 => self.mark(" ", MK::HiddenWs), 4 | 5 => self.mark("\n", MK::HiddenWs), 6 => self.uws(), 7 => self.mark("/*c*/", MK::HiddenWs), _ => self.mark(" /*c*/ ", MK::HiddenWs) } }
+    fn ows(&mut self) { match self.u.below(9) { 0 | 1 | 2 | 3 => {} 4 => self.mark(" ", MK::HiddenWs), 5 => { let w = self.pick(&["\n", "\n", "\r\n", "\r", " \r\n\t"]); self.mark(w, MK::HiddenWs) } 6 => self.mark("  \t", MK::HiddenWs), 7 => { self.uws(); } _ => { if self.u.coin(1, 4) { self.mark("/*a*//*b,(*/", MK::HiddenWs); } else if self.u.coin(1, 4) { self.mark("/*a*/ /*b*/\n", MK::HiddenWs); } else { self.mark("/*c,=;)*/", MK::HiddenWs); } self.feat("comment-in-gap"); } } }
+    fn rws(&mut self) { match self.u.below(9) { 0 | 1 | 2 | 3 => self.mark(" ", MK::HiddenWs), 4 | 5 => { let w = self.pick(&["\n", "\n", "\n", "\r\n", "\r"]); self.mark(w, MK::HiddenWs) } 6 => self.uws(), 7 => self.mark("/*c*/", MK::HiddenWs), _ => self.mark(" /*c*/ ", MK::HiddenWs) } }
     // whitespace that is not ASCII (the lexer's whitespace is Unicode White_Space)
     fn uws(&mut self) { self.feat("non-ascii-whitespace-gap"); let w = self.pick(&["\u{a0}", "\u{2003}", "\u{b}", "\u{3000} ", "\u{85}", " \u{2028}", "\u{c}", "\u{1680}\t"]); self.mark(w, MK::HiddenWs); }
     fn plain_ws(&mut self) { let w = match self.u.below(4) { 0 | 1 => " ", 2 => "\n", _ => "  " }; self.p(w); }
